@@ -217,10 +217,15 @@ type Shape struct {
 	BoundaryIDs                                        bool
 	ManyMapKeys                                        int
 	TrailingChannels                                   bool // register channels after the last message (chunk with only schema/channel records)
+	HugeRecords                                        bool // one message, schema, attachment or metadata record above 1 MiB (scratch buffers grow, chunks exceed every small threshold)
 }
 
 func (s Shape) String() string {
-	return fmt.Sprintf("s%d/c%d/m%d/a%d/md%d/%s/p%d", s.Schemas, s.Channels, s.Messages, s.Attachments, s.Metadata, s.TimeMode, s.MaxPayload)
+	h := ""
+	if s.HugeRecords {
+		h = "/huge"
+	}
+	return fmt.Sprintf("s%d/c%d/m%d/a%d/md%d/%s/p%d%s", s.Schemas, s.Channels, s.Messages, s.Attachments, s.Metadata, s.TimeMode, s.MaxPayload, h)
 }
 
 var timeModes = []string{"asc", "desc", "rand", "boundary", "ties", "smallrand", "zerofirst"}
@@ -246,6 +251,14 @@ func RandShape(r *rand.Rand, class int) Shape {
 		s.MaxPayload = 600
 		s.MaxLongStr = 3000
 		s.ManyMapKeys = 20
+	case 3:
+		s.Schemas = 1 + r.Intn(2)
+		s.Channels = 1 + r.Intn(3)
+		s.Messages = 3 + r.Intn(10)
+		s.Attachments = 1 + r.Intn(2)
+		s.Metadata = 1 + r.Intn(2)
+		s.MaxPayload = 3000
+		s.HugeRecords = true
 	default:
 		s.Schemas = r.Intn(10)
 		s.Channels = 1 + r.Intn(700)
@@ -476,7 +489,57 @@ func RandWorkload(r *rand.Rand, s Shape) *Workload {
 	if s.TrailingChannels {
 		mkChannel()
 	}
+	if s.HugeRecords {
+		huge := func() []byte { return randBytes(r, 1<<20+1+r.Intn(300<<10)) }
+		var kinds []int
+		for i := range w.Ops {
+			it := &w.Ops[i]
+			switch {
+			case it.Message != nil:
+				kinds = append(kinds, i)
+			case it.Attachment != nil, it.Metadata != nil:
+				kinds = append(kinds, i)
+			case it.Schema != nil:
+				kinds = append(kinds, i)
+			}
+		}
+		// always one huge message (not the last one, when possible), plus one other huge record
+		var msgs []int
+		for _, i := range kinds {
+			if w.Ops[i].Message != nil {
+				msgs = append(msgs, i)
+			}
+		}
+		if len(msgs) > 0 {
+			k := msgs[r.Intn(len(msgs))]
+			if len(msgs) > 1 {
+				k = msgs[r.Intn(len(msgs)-1)]
+			}
+			ord := int(w.Ops[k].Message.Sequence ^ seqMask)
+			w.Ops[k].Message.Data = huge()
+			tagPayload(w.Ops[k].Message.Data, ord)
+		}
+		if len(kinds) > 0 {
+			it := &w.Ops[kinds[r.Intn(len(kinds))]]
+			switch {
+			case it.Attachment != nil:
+				it.Attachment.Data = huge()
+			case it.Metadata != nil:
+				it.Metadata.Metadata = append(it.Metadata.Metadata, refmcap.KV{K: "huge", V: string(bytesToASCII(huge()))})
+			case it.Schema != nil:
+				// identical re-writes share the pointer, so they stay identical
+				it.Schema.Data = huge()
+			}
+		}
+	}
 	return w
+}
+
+func bytesToASCII(b []byte) []byte {
+	for i := range b {
+		b[i] = 'a' + b[i]%26
+	}
+	return b
 }
 
 // Counts returns the number of items of each kind.
